@@ -590,6 +590,7 @@ def correspond(run: lib.Run):
     n_groups = run.budget(90, 900)
     groups, dist = generate(run, n_groups, values_per_root=run.budget(3, 4))
     _STATE["groups"] = groups
+    coremodel.warm_replay(run, groups, "c06")      # "the same on every call": each case again on warm caches
     bad, sets_bad = evaluate(run, groups, "c06")
     ncases = sum(len(g.cases) for g in groups)
     distinct = len({(g.env["module"], c[1], c[2]) for g in groups for c in g.cases})
